@@ -477,6 +477,15 @@ cgstrf (superlu_options_t *options, SuperMatrix *A,
     if ( iperm_r_allocated ) SUPERLU_FREE (iperm_r);
     SUPERLU_FREE (iperm_c);
     SUPERLU_FREE (relax_end);
+    if ( fact == SamePattern_SameRowPerm ) {
+	/* The caller's L and U own the factor storage; expansions of this
+	   call may have moved it. Record where it is now, so that the
+	   caller can still release it. */
+	((SCformat *)L->Store)->nzval = Glu->lusup;
+	((SCformat *)L->Store)->rowind = Glu->lsub;
+	((NCformat *)U->Store)->nzval = Glu->ucol;
+	((NCformat *)U->Store)->rowind = Glu->usub;
+    }
     if ( Glu->MemModel == SYSTEM && fact != SamePattern_SameRowPerm ) {
 	SUPERLU_FREE (Glu->lusup);
 	SUPERLU_FREE (Glu->ucol);
